@@ -67,6 +67,8 @@ fn write_summary(path: &str, prop: &str, st: &Stats, wall: f64, extra: Value) {
         "tolerated_accepted": st.tol_ok, "tolerated_rejected": st.tol_rej,
         "mutants_by_edit_kind": by_edit,
         "nviol": st.nviol, "violations": viol, "samples": st.samples,
+        "advisory_variant_total": st.variant_total, "advisory_variant_agree": st.variant_agree,
+        "advisory_variant_disagree": st.variant_disagree,
         "wall_s": wall, "extra": extra,
     });
     std::fs::write(path, serde_json::to_string_pretty(&s).unwrap()).expect("write summary");
